@@ -27,48 +27,50 @@ OFLAVORS = ["Linux64", "Darwin", "generic", "DarwinX86"]
 # ------------------------------------------------------------------ generators
 
 
-def _tl_add(rng, bad, homog):
-    p = rng.choice(B.PRODUCTS + ["B", "Zeta", "a-b"] + (B.BAD if bad else []))
-    v = rng.choice(B.VERSIONS + (B.BAD[:3] if bad else []))
-    f = None if homog else rng.choice([None, "Linux64", "Darwin", "generic", "DarwinX86"])
-    ex = [rng.choice(["x", "y", "#c", "1.0"] + (B.BAD[:2] if bad else [])) for _ in range(rng.choice([0, 0, 0, 1, 2]))]
+def _tl_add(rng, bad, homog, wide=False):
+    p = B.wpick(rng, wide, B.PRODUCTS + ["B", "Zeta", "a-b"] + (B.BAD if bad else []), B.LONG_PRODUCTS)
+    v = B.wpick(rng, wide, B.VERSIONS + (B.BAD[:3] if bad else []), B.LONG_VERSIONS)
+    f = None if homog else B.wpick(rng, wide, [None, "Linux64", "Darwin", "generic", "DarwinX86"], B.LONG_FLAVORS)
+    ex = [B.wpick(rng, wide, ["x", "y", "#c", "1.0"] + (B.BAD[:2] if bad else []), B.LONG_EXTRAS)
+          for _ in range(rng.choice([0, 0, 0, 1, 2]))]
     return ["add", p, v, f, ex]
 
 
-def _tl_write(rng, plain=None):
+def _tl_write(rng, plain=None, wide=False):
     r = rng.random()
-    fa = None if (plain if plain is not None else r < 0.45) else rng.choice(OFLAVORS + ["Fl"])
+    fa = None if (plain if plain is not None else r < 0.45) else B.wpick(rng, wide, OFLAVORS + ["Fl"], B.LONG_FLAVORS)
     return ["write", rng.choice(FILES), fa, rng.random() < 0.25]
 
 
 def gen_tlops(rng):
     """adds first (most of the time), then a free mix of writes, dry runs, reads and further adds"""
     bad = rng.random() < 0.12
+    wide = rng.random() < B.P_WIDE_CASE
     homog = rng.random() < 0.25
-    defl = rng.choice([None, "Linux64", "Linux64", "Darwin", "generic"])
+    defl = B.wpick(rng, wide, [None, "Linux64", "Linux64", "Darwin", "generic"], B.LONG_FLAVORS)
     ops = []
     style = rng.choice(["free", "free", "writes", "publish"])
     for _ in range(rng.choice([0, 1, 2, 3, 3, 5])):
-        ops.append(_tl_add(rng, bad, homog))
+        ops.append(_tl_add(rng, bad, homog, wide))
     if style == "publish":
         # publish for another platform (possibly as a dry run, possibly several), then as it is, then read
         for _ in range(rng.choice([1, 1, 2])):
-            ops.append(_tl_write(rng, plain=False))
-        ops.append(_tl_write(rng, plain=True))
+            ops.append(_tl_write(rng, plain=False, wide=wide))
+        ops.append(_tl_write(rng, plain=True, wide=wide))
         ops[-1][3] = False
         if rng.random() < 0.5:
             ops.append(["read", ops[-1][1]])
     elif style == "writes":
         for _ in range(rng.choice([2, 3, 4])):
-            ops.append(_tl_write(rng))
+            ops.append(_tl_write(rng, wide=wide))
     else:
         written = []
         for _ in range(rng.choice([1, 2, 3, 4, 6])):
             r = rng.random()
             if r < 0.25:
-                ops.append(_tl_add(rng, bad, homog))
+                ops.append(_tl_add(rng, bad, homog, wide))
             elif r < 0.7:
-                ops.append(_tl_write(rng))
+                ops.append(_tl_write(rng, wide=wide))
                 if not ops[-1][3]:
                     written.append(ops[-1][1])
             else:
@@ -84,35 +86,37 @@ def gen_tlops(rng):
     return {"kind": "tlops", "tag": rng.choice(B.TAGS), "defl": defl, "ops": ops, "rfls": rfls[:4], "bad": bad}
 
 
-def _m_write(rng, plain=None):
-    fa = None if (plain if plain is not None else rng.random() < 0.5) else rng.choice(["Fl", "generic", "Darwin", ""])
+def _m_write(rng, plain=None, wide=False):
+    fa = None if (plain if plain is not None else rng.random() < 0.5) else \
+        B.wpick(rng, wide, ["Fl", "generic", "Darwin", ""], B.LONG_FLAVORS)
     return ["write", rng.choice(FILES), rng.random() < 0.6, fa, rng.random() < 0.25]
 
 
 def gen_mops(rng):
     bad = rng.random() < 0.1
+    wide = rng.random() < B.P_WIDE_CASE
     ops = []
     for _ in range(rng.choice([0, 1, 2, 3, 3, 5])):
-        ops.append(["add", B.gen_dep(rng, bad)])
+        ops.append(["add", B.gen_dep(rng, bad, wide)])
     style = rng.choice(["free", "free", "writes", "publish"])
     if style == "publish":
         for _ in range(rng.choice([1, 1, 2])):
-            ops.append(_m_write(rng, plain=False))
-        ops.append(_m_write(rng, plain=True))
+            ops.append(_m_write(rng, plain=False, wide=wide))
+        ops.append(_m_write(rng, plain=True, wide=wide))
         ops[-1][4] = False
         if rng.random() < 0.4:
             ops.append(["read", ops[-1][1], rng.random() < 0.5, rng.random() < 0.3])
     elif style == "writes":
         for _ in range(rng.choice([2, 3, 4])):
-            ops.append(_m_write(rng))
+            ops.append(_m_write(rng, wide=wide))
     else:
         written = []
         for _ in range(rng.choice([1, 2, 3, 4, 6])):
             r = rng.random()
             if r < 0.25:
-                ops.append(["add", B.gen_dep(rng, bad)])
+                ops.append(["add", B.gen_dep(rng, bad, wide)])
             elif r < 0.65:
-                ops.append(_m_write(rng))
+                ops.append(_m_write(rng, wide=wide))
                 if not ops[-1][4]:
                     written.append(ops[-1][1])
             elif r < 0.75:
@@ -120,9 +124,10 @@ def gen_mops(rng):
             else:
                 ops.append(["read", rng.choice(written) if written and rng.random() < 0.85 else rng.choice(FILES),
                             rng.random() < 0.5, rng.random() < 0.3])
-    prod = rng.choice([None, "top", "afw", "x(y)"] + (B.BAD[:4] if bad else []))
-    vers = rng.choice([None, "1.0", "2)", "svn1"] + (B.BAD[:4] if bad else []))
-    return {"kind": "mops", "product": prod, "version": vers, "efl": rng.choice(B.EFLS), "ops": ops, "bad": bad}
+    prod = B.wpick(rng, wide, [None, "top", "afw", "x(y)"] + (B.BAD[:4] if bad else []), B.LONG_PRODUCTS)
+    vers = B.wpick(rng, wide, [None, "1.0", "2)", "svn1"] + (B.BAD[:4] if bad else []), B.LONG_VERSIONS)
+    return {"kind": "mops", "product": prod, "version": vers, "efl": B.wpick(rng, wide, B.EFLS, B.LONG_FLAVORS),
+            "ops": ops, "bad": bad}
 
 
 # ------------------------------------------------------------------ implementation (inside the forked child)
